@@ -1013,6 +1013,19 @@ Inv_Info ==
            /\ LNEq(MutualInfo(c, i, p, j), MutualInfo(post, k, py, k))                  \* roles swapped
            /\ (\A a \in 1..dy : \A b \in 1..dx : c.M[i][a][b] = 0) => LNEq(MutualInfo(c, i, p, j), LNZero)
 
+\* C14: the expected log-conditional of a linear model under an ARBITRARY Gaussian q over (y, x) agrees with the
+\* entry-wise Isserlis expansion  -1/2 sum_kl Lam_kl E[r_k r_l] - Dy/2 ln 2pi - 1/2 ln det Sigma,  r = y - M x - b
+Inv_IntLogCond ==
+    (IsAct("IntLogCond") /\ ~("raises" \in DOMAIN Last.a)) =>
+      LET c == heap[Last.a.i] q == heap[Last.a.j] dy == CDy(c) IN
+      \A k \in 1..NumR(q) :
+        LET i == IF CR(c) = 1 THEN 1 ELSE k
+            T == Truth(q, k)
+            A == HCat(Eye(dy), MNeg(c.M[i]))
+            f(a) == Form(A[a], FNeg(c.b[i][a]))
+            quad == SumOver(dy, LAMBDA a1 : SumOver(dy, LAMBDA a2 : FMul(c.Lam[i][a1][a2], Mom2(f(a1), f(a2), T.mu, T.Sig))))
+        IN LNEq(IntLogCond(c, i, q, k), LN(FNeg(FHalfOf(quad)), 0 - dy, FInv(c.dSig[i])))
+
 \* C14: E_{p(x)}[ln p(y|x)] is the expectation under the model's own joint of ... consistency between the two integrals:
 \* integrating IntLogCondY over y ~ p(y|x)p(x) is not representable; instead both are tied to the same moment formula
 \* and IntLogCond under the model's own joint equals minus the conditional entropy (Inv_Info).
